@@ -62,7 +62,11 @@ def gen_loc_forest(rng):
                         pos = rng.randint(0, 8)
                     ln = rng.randint(1, 64)
                     kind = "range" if version < 5 else rng.choice(["offset_pair", "offset_pair", "start_end", "start_length"])
-                    if kind in ("range", "offset_pair"):
+                    if version >= 5 and rng.random() < 0.12 and not any(e[0] == "default" for e in entries):
+                        kind = "default"       # anywhere in the list: what is stored after it is still part of the list
+                    if kind == "default":
+                        entries.append((kind, 0, 0, ops))
+                    elif kind in ("range", "offset_pair"):
                         entries.append((kind, pos, pos + ln, ops))
                     elif kind == "start_end":
                         a = rng.getrandbits(36)
